@@ -6,6 +6,7 @@ pairing/ordering obligations at those sites plus the two flag state machines."""
 from .. import sx as SX
 from ..facts import AnalysisBroken
 from ..roles import Roles
+from ..kcanon import Canon
 from ..kernels import ArgSummary, arg, arg_text, full_range_for, size_of, enclosing_stmts, must_follow_modulo_bounds
 
 EXPLANATION = (
@@ -132,6 +133,7 @@ def run(prog, chk):
         if not any(R.is_sim_call(n) for n in SX.walk(f.body, into_lambdas=False)):
             continue
         g = prog.cfg(f)
+        canon = Canon(prog, f)
         for node in g.calls(lambda e: R.is_sim_call(e)):
             c = node.e
             nm = SX.short(c['callee'])
@@ -141,8 +143,8 @@ def run(prog, chk):
                 for j, prm in enumerate(gd.params):
                     if prm['type'] != 'int':
                         continue
-                    t = arg_text(c, j)
-                    ens = [x for x in g.calls() if ENS.establishes_text(x.e, t)]
+                    t = canon.text(arg(c, j))
+                    ens = [x for x in g.calls() if ENS.establishes_canon(x.e, t, canon)]
                     ok = bool(ens) and g.must_precede(ens, node)
                     path = None
                     if not ok:
@@ -153,18 +155,18 @@ def run(prog, chk):
                     if ok:
                         near = [x for x in ens if g.dominates(x, node)]
                         for x in near[:1] or ens[:1]:
-                            chk.ob('R06.1', f, x.ln, _located(g, x), 'ensure-active must report the call node\'s own line/column', key='%s#%d-loc' % (nm, j))
+                            chk.ob('R06.1', f, x.ln, _located(g, x, ENS.inner_establishing(x.e, t, canon)), 'ensure-active must report the call node\'s own line/column', key='%s#%d-loc' % (nm, j))
             elif nm == sim['measure'].short:
                 n_meas += 1
-                t = arg_text(c, 0)
-                ens = [x for x in g.calls() if ENS.establishes_text(x.e, t)]
+                t = canon.text(arg(c, 0))
+                ens = [x for x in g.calls() if ENS.establishes_canon(x.e, t, canon)]
                 ok = bool(ens) and g.must_precede(ens, node)
                 chk.ob('R06.2', f, node.ln, ok, 'sim.measure(%s) needs a dominating ensure-active(%s)' % (t, t), key='measure-ensure:' + _sitekey(g, node))
                 if ok:
                     for x in [x for x in ens if g.dominates(x, node)][:1]:
-                        chk.ob('R06.2', f, x.ln, _located(g, x), 'ensure-active must report the measure node\'s own line/column',
+                        chk.ob('R06.2', f, x.ln, _located(g, x, ENS.inner_establishing(x.e, t, canon)), 'ensure-active must report the measure node\'s own line/column',
                                key='measure-loc:' + _sitekey(g, node))
-                mk = [x for x in g.calls() if MARK.establishes_text(x.e, t)]
+                mk = [x for x in g.calls() if MARK.establishes_canon(x.e, t, canon)]
                 ok2 = bool(mk) and g.must_follow(node, mk)
                 path = None
                 if not ok2:
@@ -175,8 +177,8 @@ def run(prog, chk):
                 _loop_rule(chk, f, g, node, c)
             elif nm == sim['reset'].short:
                 n_reset += 1
-                t = arg_text(c, 0)
-                um = [x for x in g.calls() if UNMARK.establishes_text(x.e, t)]
+                t = canon.text(arg(c, 0))
+                um = [x for x in g.calls() if UNMARK.establishes_canon(x.e, t, canon)]
                 ok = bool(um) and g.must_follow(node, um)
                 chk.ob('R06.3', f, node.ln, ok, 'sim.reset(%s) must be followed on all normal paths by unmark/release(%s)' % (t, t),
                        key='reset-unmark:' + _sitekey(g, node))
@@ -309,10 +311,11 @@ def _skips(g, edge, ws):
     return not any(w.id in r for w in ws)
 
 
-def _located(g, x):
+def _located(g, x, inner=None):
     """ensure call x passes (<node>->line, <node>->column) of one AST-node variable that is bound by a
-    dominating dynamic_cast guard or is a parameter."""
-    a = SX.real_args(x.e)
+    dominating dynamic_cast guard or is a parameter.  When x invokes a local closure, `inner` is the ensure call inside it
+    (closures capture the handler's node variable by reference, so the same dominance test applies at x)."""
+    a = SX.real_args(inner if inner is not None else x.e)
     if len(a) < 3:
         return False
     l, c = a[-2], a[-1]
